@@ -114,6 +114,12 @@ func (r routecmd) build() []string {
 				log.Printf("[WARN] consul: Skipping %s tag %q of service %q: %s", r.prefix, tag, name, err)
 				continue
 			}
+			// a line break in a name, tag or option would start a command of its
+			// own: a registration must not be able to issue route commands
+			if strings.ContainsAny(cfg, "\r\n") {
+				log.Printf("[WARN] consul: Skipping %s tag %q of service %q: line break in route command", r.prefix, tag, name)
+				continue
+			}
 
 			config = append(config, cfg)
 		}
